@@ -490,7 +490,7 @@ func ruleRender(r *Run) {
 		} else {
 			var lk *ssa.Lookup
 			allInstrs(mu.Parent(), func(in ssa.Instruction) {
-				if l, ok := in.(*ssa.Lookup); ok && l.CommaOk && l.Index == mu.Key && (l.X == mu.Map || describe(l.X, 2) == describe(mu.Map, 2)) {
+				if l, ok := in.(*ssa.Lookup); ok && l.CommaOk && (l.Index == mu.Key || describe(l.Index, 2) == describe(mu.Key, 2)) && (l.X == mu.Map || describe(l.X, 2) == describe(mu.Map, 2)) {
 					lk = l
 				}
 			})
